@@ -32,6 +32,6 @@ def main(argv):
     res = enumcheck.run_jobs(jobs, timeout=1500)
     viol, infra, ev, di, samples = enumcheck.collect("C09", res, "h_resync", "sched-asan", accept_props={"C09"})
     rule = ("one evaluation = one hand-assembled uncompressed stream decoded by the real decoding stage and compared with the three known "
-            "objects it contains; distinct = classes of placement (all positions, each position, split, unknown, unknown-split, padded, session) "
-            "that were exercised")
+            "objects it contains; every stream is a different input by construction; non-trivial = it holds filler / an unknown object or is "
+            "split across containers (sessions count as evaluations only)")
     return enumcheck.finish("C09", tier, seed, t0, viol, infra, ev, max(di, 2), samples, rule, ASSUME)
